@@ -220,7 +220,45 @@ fn corpus() -> Vec<(&'static str, String, Vec<(usize, Vec<PS>)>, Vec<u8>)> {
 /// parametric grammars, expanded by reachability of (rule, parameter) pairs
 fn parametric(idx: usize) -> (String, Vec<(usize, Vec<PS>)>, Vec<u8>) {
     let t = |c: u8| PS::T(c, c);
-    match idx % 3 {
+    match idx % 7 {
+        5 => {
+            // conditional empty alternative, two start values: a{2,6} from t::0, a{0,2} from t::4
+            let lark = "start: t::0 | t::4\nt::_: \"a\" t::incr(_) %if lt(_, 6)\n | \"\" %if ge(_, 2)\n".to_string();
+            let mut rules = vec![(0, vec![PS::N(1)]), (0, vec![PS::N(5)])];
+            for p in 0..=6usize {
+                if p < 6 { rules.push((1 + p, vec![t(b'a'), PS::N(2 + p)])); }
+                if p >= 2 { rules.push((1 + p, vec![])); }
+            }
+            (lark, rules, b"a".to_vec())
+        }
+        6 => {
+            // the same counter under two wrappers that end differently
+            let lark = "start: a | b\na: t::0 \"!\"\nb: t::4 \"?\"\nt::_: \"a\" t::incr(_) %if lt(_, 6)\n | \"\" %if ge(_, 2)\n".to_string();
+            let mut rules = vec![(0, vec![PS::N(1)]), (0, vec![PS::N(2)]), (1, vec![PS::N(3), t(b'!')]), (2, vec![PS::N(7), t(b'?')])];
+            for p in 0..=6usize {
+                if p < 6 { rules.push((3 + p, vec![t(b'a'), PS::N(4 + p)])); }
+                if p >= 2 { rules.push((3 + p, vec![])); }
+            }
+            (lark, rules, b"a!?".to_vec())
+        }
+        3 => {
+            // one rule live under three parameter values at the same position and origin: {xa, xb, xcc}
+            let lark = "start: w::1 | w::2 | w::3\nw::_: \"x\" z::_\nz::_: \"a\" %if eq(_, 1)\n | \"b\" %if eq(_, 2)\n | \"c\" \"c\" %if eq(_, 3)\n".to_string();
+            let mut rules = vec![(0, vec![PS::N(1)]), (0, vec![PS::N(2)]), (0, vec![PS::N(3)])];
+            for k in 1..=3usize { rules.push((k, vec![t(b'x'), PS::N(3 + k)])); }
+            rules.push((4, vec![t(b'a')])); rules.push((5, vec![t(b'b')])); rules.push((6, vec![t(b'c'), t(b'c')]));
+            (lark, rules, b"xabc".to_vec())
+        }
+        4 => {
+            // a counter started at two values: {aaab, aaaab, ab, aab}
+            let lark = "start: t::0 | t::2\nt::_: \"a\" t::incr(_) %if lt(_, 4)\n | \"b\" %if ge(_, 3)\n".to_string();
+            let mut rules = vec![(0, vec![PS::N(1)]), (0, vec![PS::N(3)])];
+            for p in 0..=4usize {
+                if p < 4 { rules.push((1 + p, vec![t(b'a'), PS::N(2 + p)])); }
+                if p >= 3 { rules.push((1 + p, vec![t(b'b')])); }
+            }
+            (lark, rules, b"ab".to_vec())
+        }
         0 => {
             // permutations of a, b, c
             let lark = "start: perm::0x0\nperm::_: \"\" %if is_ones([0:3])\n | \"a\" perm::set_bit(0) %if bit_clear(0)\n | \"b\" perm::set_bit(1) %if bit_clear(1)\n | \"c\" perm::set_bit(2) %if bit_clear(2)\n".to_string();
@@ -284,7 +322,7 @@ pub fn gen_case(rng: &mut Rng, idx: usize, thorough: bool) -> Value {
     let nc = corpus().len();
     let depth_budget = if thorough { 3000 } else { 1200 };
     if idx < nc { return json!({"kind": "corpus", "i": idx, "budget": depth_budget}); }
-    if idx < nc + 3 { return json!({"kind": "param", "i": idx - nc, "budget": depth_budget}); }
+    if idx < nc + 7 { return json!({"kind": "param", "i": idx - nc, "budget": depth_budget}); }
     if idx % 5 == 4 {
         // Earley rows only: Lark grammars with regex lexemes and %ignore, JSON schemas (whitespace skip lexeme)
         let g = if rng.chance(1, 2) { crate::eng::gen_grammar(rng, idx).0.to_json() } else { json!({"json_schema": crate::c07::gen_root(rng)}) };
